@@ -8,6 +8,11 @@ to shared variable parameters, set_value / compute_unitary(assign=...)) are sent
 model (`Heap`, `World`, driver request {"hist": …}) and run with the real API; every evaluation, iteration and
 accept/reject decision is compared; a Python mirror (references resolved, numpy product) is the direct oracle.
 Symbolic matrices are evaluated numerically (with values / with symbols substituted afterwards) and compared too.
+Histories of the registry machine (`Model/C01Reg.lean`, driver request {"rhist": …}): Parameter objects some of which share a
+name, leaves bound to them, the duplicate-name RuntimeError of `Circuit.add` (also in the middle of its loop), assign /
+compute_unitary(assign=…), evaluation with undefined parameters, copy() / copy(subs=…); compared after every operation:
+outcome class, registry (names, order, object identity), `defined`, parameters of the reachable leaves, values of all
+Parameter objects; at every evaluation: the matrix.
 """
 from __future__ import annotations
 
@@ -1725,7 +1730,7 @@ def run(chk: core.Check):
                 "nest by reference / merge through add, //=, //, @=, @ / barrier / copy() / set_value / evaluation through any "
                 "handle; 10% with an inadmissible range) sent as histories to the Lean heap model and run with the real API, "
                 "every evaluation compared (non-trivial = at least one sub-circuit added); small circuits are also evaluated "
-                "symbolically (quick: a share, thorough: all circuits of at most 4 modes and 16 leaves, a tenth of the longer ones), with values and with the variables "
+                "symbolically (quick: a share, thorough: all circuits of at most 4 modes and 16 leaves, a tenth of those of 17-28 leaves), with values and with the variables "
                 "left symbolic and substituted afterwards; plus construction programs whose BS/PS leaves are bound to variable "
                 "parameters that receive values, and then other values, after assembly; plus histories of the registry "
                 "machine (Parameter objects some of which share a name, defined or not; leaves bound to them; add / nest / "
@@ -1745,7 +1750,7 @@ def run(chk: core.Check):
                             ["symbolic-leaf-" + t for t in ("BS", "PS", "PERM", "U", "UH", "Barrier")] + RH_BRANCHES
     chk.lean = core.LeanDriver("C01")
     rng = chk.rng
-    n = chk.pick(500, 8000)
+    n = chk.pick(500, 5000)
     max_m = chk.pick(6, 9)
     max_depth = chk.pick(3, 5)
     max_ops = chk.pick(10, 24)
@@ -1761,21 +1766,22 @@ def run(chk: core.Check):
     for i in range(n):
         m = rng.randint(1, max_m)
         expr = gen_circ(rng, m, rng.randint(0, max_depth), rng.randint(1, max_ops), malformed=(rng.random() < 0.1))
-        # sympy's cost explodes on long narrow circuits (3 modes, 31 leaves: 90 s): beyond 16 leaves only a tenth
-        if m <= 4 and rng.random() < chk.pick(0.35, 1.0 if n_leaves(expr) <= 16 else 0.1) and \
+        # sympy's cost explodes on long narrow circuits (3 modes, 31 leaves: 90 s): thorough takes all circuits up to 16
+        # leaves, a tenth of those up to 28, none beyond (quick: a share of everything, circuits are short there)
+        if m <= 4 and rng.random() < chk.pick(0.35, 1.0 if n_leaves(expr) <= 16 else (0.1 if n_leaves(expr) <= 28 else 0.0)) and \
                 n_leaves(expr) <= SYM_MAX_LEAVES:
             expr["symbolic"] = True
         batch.append(expr)
     for expr in batch:
         handle(chk, expr)
-    for _ in range(chk.pick(150, 2000)):
+    for _ in range(chk.pick(150, 1500)):
         handle_history(chk, gen_pool_history(rng, rng.randint(6, chk.pick(18, 36)), chk.pick(5, 7),
                                              malformed=(rng.random() < 0.1)))
     for _ in range(chk.pick(150, 1500)):
         m = rng.randint(2, 5)
         e = gen_circ(rng, m, rng.randint(0, 2), rng.randint(2, 8))
         handle_param_program(chk, strip_for_params(rng, e, [0]))
-    for _ in range(chk.pick(250, 3000)):
+    for _ in range(chk.pick(250, 2500)):
         handle_reg_history(chk, gen_reg_history(rng, rng.randint(6, chk.pick(20, 32)), chk.pick(4, 5)))
 
 
